@@ -93,6 +93,10 @@ pub struct Snapshot {
     pub connack_timeout_in_ms: Option<i128>,
     pub slow_start_ack_count: u32,
     pub settings: Option<VSettings>,
+    /// decoder framing state: (0 type / 1 remaining length / 2 body / 3 terminal error, buffered bytes, first byte, remaining length)
+    pub decoder: (u8, Vec<u8>, Option<u8>, Option<usize>),
+    /// encoding steps still queued for the packet being written
+    pub encoder_steps_left: usize,
 }
 
 fn state_code(state: ProtocolStateType) -> u8 {
@@ -202,6 +206,8 @@ pub(crate) fn snapshot(state: &ProtocolState, now: &Instant) -> Snapshot {
         connack_timeout_in_ms: state.connack_timeout_timepoint.as_ref().map(|t| rel_ms(t, now)),
         slow_start_ack_count: state.slow_start_ack_count,
         settings: state.current_settings.as_ref().map(settings_view),
+        decoder: crate::decode::verif_decoder_state(&state.decoder),
+        encoder_steps_left: crate::encode::verif_encoder_steps_left(&state.encoder),
     }
 }
 
